@@ -8,37 +8,9 @@
 (*      ms = the fraction read as milliseconds (".1" -> 100), fracdigits   *)
 (*      its number of digits, lex = 1 iff the text matches xs:duration     *)
 (***************************************************************************)
-EXTENDS Prelude
+EXTENDS Prelude, IsoDuration
 
-\* ---- reference: round half up to milliseconds with carry --------------------
-RefMillis(x) == x.s * 1000 + ((x.u + 500) \div 1000)        \* only for x.s < 2 000 000
-RefFields(x) ==
-    LET ms0 == (x.u + 500) \div 1000
-        s1  == IF ms0 >= 1000 THEN x.s + 1 ELSE x.s
-        ms  == IF ms0 >= 1000 THEN ms0 - 1000 ELSE ms0
-    IN  [h |-> s1 \div 3600, m |-> (s1 % 3600) \div 60, s |-> s1 % 60, ms |-> ms]
-
-\* value of tokenised fields as [s, u]
-FieldsValue(f) == [s |-> f.h * 3600 + f.m * 60 + f.s, u |-> f.ms * 1000]
-
-\* |a - b| <= 500 us for durations [s, u]
-Within500(a, b) ==
-    LET ds == a.s - b.s IN
-    /\ ds >= -1 /\ ds <= 1
-    /\ LET diff == ds * 1000000 + (a.u - b.u) IN diff >= -500 /\ diff <= 500
-
-\* ---- implementation level: toIsoDuration as written (after the carry fix) -------
-ImplDurationFields(x) ==
-    LET ms0 == (x.u + 500) \div 1000          \* int(frac * 1000 + 0.5)
-        s1  == IF ms0 >= 1000 THEN x.s + 1 ELSE x.s
-        ms  == IF ms0 >= 1000 THEN ms0 - 1000 ELSE ms0
-    IN  [h |-> s1 \div 3600, m |-> (s1 % 3600) \div 60, s |-> s1 % 60, ms |-> ms]
-
-\* ---- property level -------------------------------------------------------------
-C19_DurationRoundTrip(x, parsed) == Within500(parsed, x)
-C19_DurationTextValue(x, f) == Within500(FieldsValue(f), x)
-C19_FieldsBelow60(f) == f.m >= 0 /\ f.m < 60 /\ f.s >= 0 /\ f.s < 60 /\ f.ms >= 0 /\ f.ms < 1000 /\ f.h >= 0
-C19_LexicalXsDuration(f) == f.lex = 1
+\* duration rounding, fields and clauses: module IsoDuration (shared with the unbounded Apalache check)
 
 \* date-time: text fields [y, mo, d, h, mi, s, us, off] (off = UTC offset in minutes)
 FieldsInstant(f) ==       \* the UTC instant the text denotes
